@@ -1,11 +1,13 @@
 (* C16/Lemmas.v — proofs about the model of template evaluation and subscriptions. *)
 From Common Require Import Prelude.
+From Coq Require Import QArith.
 From C16 Require Import Model.
 Open Scope Z_scope.
 
 (* ---- the translated tables against the language's operators ----------------------------------
-   These are the lemmas that break when an entry of OPERATORS / COMPARISONS / BOOL_OPERATORS in
-   placeholder_manager.py is swapped, dropped or replaced (gen/Tables.v is regenerated on every run). *)
+   These are the lemmas that break when an entry of OPERATORS / COMPARISONS / BOOL_OPERATORS or of
+   _eval_methods in placeholder_manager.py is swapped, dropped or replaced (gen/Tables.v is
+   regenerated on every run). *)
 Lemma operators_bin_ok : forall o, supported_bin o = true ->
   exists p, operators o = Some p /\ forall a b, prim_call2 p a b = py_binop o a b.
 Proof. destruct o; cbn; intro H; try discriminate; eexists; split; try reflexivity; intros; reflexivity. Qed.
@@ -22,12 +24,49 @@ Lemma bool_operators_ok : forall o,
   exists p, bool_operators o = Some p /\ forall a b, bprim_call p a b = py_boolop o a b.
 Proof. destruct o; cbn; eexists; split; try reflexivity; intros; reflexivity. Qed.
 
+(* every node class of the supported grammar is dispatched to its own walker *)
+Lemma d_constant r : dispatch NConstant M_eval_constant r = r. Proof. reflexivity. Qed.
+Lemma d_name r : dispatch NName M_eval_name r = r. Proof. reflexivity. Qed.
+Lemma d_attribute r : dispatch NAttribute M_eval_attribute r = r. Proof. reflexivity. Qed.
+Lemma d_subscript r : dispatch NSubscript M_eval_subscript r = r. Proof. reflexivity. Qed.
+Lemma d_bin_op r : dispatch NBinOp M_eval_bin_op r = r. Proof. reflexivity. Qed.
+Lemma d_unary_op r : dispatch NUnaryOp M_eval_unary_op r = r. Proof. reflexivity. Qed.
+Lemma d_compare r : dispatch NCompare M_eval_compare r = r. Proof. reflexivity. Qed.
+Lemma d_bool_op r : dispatch NBoolOp M_eval_bool_op r = r. Proof. reflexivity. Qed.
+Lemma d_if r : dispatch NIfExp M_eval_if r = r. Proof. reflexivity. Qed.
+Lemma d_tuple r : dispatch NTuple M_eval_tuple r = r. Proof. reflexivity. Qed.
+Global Hint Rewrite d_constant d_name d_attribute d_subscript d_bin_op d_unary_op d_compare d_bool_op d_if d_tuple : disp.
+
+Lemma dispatch_table_ok :
+  forall k m, In (k, m) [(NConstant, M_eval_constant); (NName, M_eval_name); (NAttribute, M_eval_attribute);
+                         (NSubscript, M_eval_subscript); (NBinOp, M_eval_bin_op); (NUnaryOp, M_eval_unary_op);
+                         (NCompare, M_eval_compare); (NBoolOp, M_eval_bool_op); (NIfExp, M_eval_if);
+                         (NTuple, M_eval_tuple)] ->
+  forall r, dispatch k m r = r.
+Proof.
+  intros k m H r. cbn in H.
+  repeat (destruct H as [H | H]; [inversion H; subst; reflexivity|]). destruct H.
+Qed.
+
+(* the walk with the dispatch wrappers removed *)
+Lemma read_node_eq sub en r :
+  dispatch NName M_eval_name
+    (dispatch NAttribute M_eval_attribute
+       (match r with
+        | RPlayerN _ _ => dispatch NSubscript M_eval_subscript (dispatch NConstant M_eval_constant (read_walk sub en r))
+        | _ => read_walk sub en r
+        end)) = read_walk sub en r.
+Proof. destruct r; autorewrite with disp; reflexivity. Qed.
+
+Lemma read_match_eq {A} (r : rdesc) (X : A) : match r with RPlayerN _ _ => X | _ => X end = X.
+Proof. destruct r; reflexivity. Qed.
+
 (* ---- MPF's walk against Python's evaluation -------------------------------------------------- *)
 Definition expected (sub : bool) (p : pres) : tres :=
   match p with
   | PVal v => TVal v
   | PTypeErr => TEvalErr
-  | PZeroDiv => TCrash
+  | PZeroDiv | PIndexErr => TCrash
   | PNameErr => TValueErr
   | PReadErr => if sub then TEvalErr else TValueErr
   | PCrash => TCrash
@@ -40,16 +79,10 @@ Proof. destruct r; reflexivity. Qed.
 Lemma fst_with_subs s r : fst (with_subs s r) = fst r.
 Proof. destruct r as [[] ?]; reflexivity. Qed.
 
-Lemma tbind_fst_not_val r k : (forall v, fst r <> TVal v) -> tbind r k = r.
-Proof. destruct r as [[] ?]; cbn; intro H; try reflexivity. exfalso; eapply H; reflexivity. Qed.
-
 Lemma expected_val sub p v : expected sub p = TVal v -> p = PVal v.
 Proof. destruct p, sub; cbn; intro H; try discriminate; congruence. Qed.
 
-Lemma expected_not_val sub p : (forall v, p <> PVal v) -> forall v, expected sub p <> TVal v.
-Proof. intros H v E. apply expected_val in E. eapply H; eauto. Qed.
-
-(* evaluation of two operands, shared by BinOp / Compare / BoolOp *)
+(* evaluation of two operands, shared by BinOp / Compare / BoolOp / Tuple / Subscript *)
 Lemma two_operands sub en a b (k : value -> value -> list loc -> tres * list loc) (kp : value -> value -> pres) :
   fst (tmpl_eval sub en a) = expected sub (py_eval en a) ->
   fst (tmpl_eval sub en b) = expected sub (py_eval en b) ->
@@ -60,55 +93,105 @@ Proof.
   intros Ha Hb Hk.
   destruct (tmpl_eval sub en a) as [ta sa]; cbn [fst] in Ha; subst ta.
   destruct (tmpl_eval sub en b) as [tb sb]; cbn [fst] in Hb; subst tb.
-  destruct (py_eval en a) as [va| | | | | |]; cbn; try reflexivity; try (destruct sub; reflexivity).
-  destruct (py_eval en b) as [vb| | | | | |]; cbn; try reflexivity; try (destruct sub; reflexivity).
+  destruct (py_eval en a) as [va| | | | | | |]; cbn; try reflexivity; try (destruct sub; reflexivity).
+  destruct (py_eval en b) as [vb| | | | | | |]; cbn; try reflexivity; try (destruct sub; reflexivity).
   apply Hk.
 Qed.
 
-Lemma tmpl_matches_python : forall sub en e, supported e = true ->
+Definition subs_ok (sub : bool) (e : expr) : Prop := sub = false \/ subscribable e = true.
+
+Lemma subs_ok_2 sub a b : sub = false \/ subscribable a && subscribable b = true -> subs_ok sub a /\ subs_ok sub b.
+Proof.
+  intros [H | H]; [split; left; assumption|].
+  apply andb_true_iff in H as [Ha Hb]. split; right; assumption.
+Qed.
+
+Lemma read_walk_matches sub en r : supported_read r = true -> (sub = false \/ unsubscribable r = false) ->
+  fst (read_walk sub en r) =
+  expected sub (match rread en r with RVal v => PVal v | RValErr => PReadErr | RCrash => PCrash end).
+Proof.
+  intros S G.
+  destruct r as [l | x | i x].
+  - destruct l; cbn [supported_read] in S; try discriminate.
+    + cbn. destruct (lookup_loc _ _) as [[]|]; cbn; try reflexivity; destruct sub; reflexivity.
+    + cbn. destruct (lookup_loc _ _) as [[]|]; cbn; try reflexivity; destruct sub; reflexivity.
+    + cbn. destruct (lookup_loc _ _) as [[]|]; cbn; try reflexivity; destruct sub; reflexivity.
+    + destruct G as [-> | G]; [|discriminate].
+      cbn. destruct (lookup_loc _ _) as [[]|]; reflexivity.
+    + destruct G as [-> | G]; [|discriminate].
+      cbn. destruct (game en); [|reflexivity]. destruct (lookup_loc _ _) as [[]|]; reflexivity.
+  - unfold read_walk. destruct (rread en (RCur x)); cbn; try reflexivity; destruct sub; reflexivity.
+  - unfold read_walk. destruct (rread en (RPlayerN i x)); cbn; try reflexivity; destruct sub; reflexivity.
+Qed.
+
+Lemma tmpl_matches_python : forall sub en e, supported e = true -> subs_ok sub e ->
   fst (tmpl_eval sub en e) = expected sub (py_eval en e).
 Proof.
-  intros sub en e. induction e; intro S; cbn [supported] in S.
+  intros sub en e. induction e; intros S G; cbn [supported] in S; unfold subs_ok in G; cbn [subscribable] in G.
   - reflexivity.
   - reflexivity.
   - reflexivity.
   - reflexivity.
-  - cbn. destruct (assoc_z x (params en)); reflexivity.
-  - cbn. destruct (sread en l); cbn; try reflexivity. destruct sub; reflexivity.
+  - reflexivity.
+  - cbn. autorewrite with disp. destruct (assoc_z x (params en)); reflexivity.
+  - cbn [tmpl_eval py_eval]. rewrite read_node_eq. apply read_walk_matches; [assumption|].
+    destruct G as [G | G]; [left; assumption | right]. destruct (unsubscribable r); [discriminate | reflexivity].
   - apply andb_true_iff in S as [S Sb]. apply andb_true_iff in S as [So Sa].
+    destruct (subs_ok_2 _ _ _ G) as [Ga Gb].
     destruct (operators_bin_ok o So) as [p [Hp Hc]].
-    cbn [tmpl_eval py_eval]. rewrite Hp.
+    cbn [tmpl_eval py_eval]. autorewrite with disp. rewrite Hp.
     apply (two_operands sub en e1 e2 (fun va vb s => of_res (prim_call2 p va vb) s)
                         (fun va vb => pres_of (py_binop o va vb))); auto.
     intros. rewrite Hc. apply fst_of_res.
   - apply andb_true_iff in S as [So Sa].
     destruct (operators_un_ok o So) as [p [Hp Hc]].
-    cbn [tmpl_eval py_eval]. rewrite Hp. specialize (IHe Sa).
+    cbn [tmpl_eval py_eval]. autorewrite with disp. rewrite Hp. specialize (IHe Sa G).
     destruct (tmpl_eval sub en e) as [ta sa]; cbn [fst] in IHe; subst ta.
     destruct (py_eval en e); cbn; try reflexivity; try (destruct sub; reflexivity).
     rewrite Hc. apply fst_of_res.
   - apply andb_true_iff in S as [S Sb]. apply andb_true_iff in S as [So Sa].
+    destruct (subs_ok_2 _ _ _ G) as [Ga Gb].
     destruct (comparisons_ok o So) as [p [Hp Hc]].
-    cbn [tmpl_eval py_eval]. rewrite Hp.
+    cbn [tmpl_eval py_eval]. autorewrite with disp. rewrite Hp.
     apply (two_operands sub en e1 e2 (fun va vb s => of_res (prim_call2 p va vb) s)
                         (fun va vb => pres_of (py_cmp o va vb))); auto.
     intros. rewrite Hc. apply fst_of_res.
   - apply andb_true_iff in S as [Sa Sb].
+    destruct (subs_ok_2 _ _ _ G) as [Ga Gb].
     destruct (bool_operators_ok o) as [p [Hp Hc]].
-    cbn [tmpl_eval py_eval]. rewrite Hp.
+    cbn [tmpl_eval py_eval]. autorewrite with disp. rewrite Hp.
     apply (two_operands sub en e1 e2 (fun va vb s => (TVal (bprim_call p va vb), s))
                         (fun va vb => PVal (py_boolop o va vb))); auto.
     intros. cbn. rewrite Hc. reflexivity.
   - apply andb_true_iff in S as [S Sb]. apply andb_true_iff in S as [Sc Sa].
-    cbn [tmpl_eval py_eval]. specialize (IHe1 Sc). specialize (IHe2 Sa). specialize (IHe3 Sb).
+    assert (Gc : subs_ok sub e1 /\ subs_ok sub e2 /\ subs_ok sub e3).
+    { destruct G as [G | G]; [repeat split; left; assumption|].
+      apply andb_true_iff in G as [G G3]. apply andb_true_iff in G as [G1 G2]. repeat split; right; assumption. }
+    destruct Gc as [G1 [G2 G3]].
+    cbn [tmpl_eval py_eval]. autorewrite with disp.
+    specialize (IHe1 Sc G1). specialize (IHe2 Sa G2). specialize (IHe3 Sb G3).
     destruct (tmpl_eval sub en e1) as [tc sc]; cbn [fst] in IHe1; subst tc.
-    destruct (py_eval en e1) as [vc| | | | | |]; cbn; try reflexivity; try (destruct sub; reflexivity).
+    destruct (py_eval en e1) as [vc| | | | | | |]; cbn; try reflexivity; try (destruct sub; reflexivity).
     rewrite fst_with_subs. destruct (truthy vc); assumption.
+  - reflexivity.
+  - apply andb_true_iff in S as [S Sb]. apply andb_true_iff in S as [St Sa].
+    destruct (subs_ok_2 _ _ _ G) as [Ga Gb].
+    cbn [tmpl_eval py_eval]. autorewrite with disp.
+    apply (two_operands sub en e1 e2
+             (fun va vr s => match vr with VTuple l => (TVal (VTuple (va :: l)), s) | _ => (TUnsup, []) end)
+             (fun va vr => match vr with VTuple l => PVal (VTuple (va :: l)) | _ => PUnsup end)); auto.
+    intros va vr s. destruct vr; reflexivity.
+  - apply andb_true_iff in S as [Sa Sb].
+    destruct (subs_ok_2 _ _ _ G) as [Ga Gb].
+    cbn [tmpl_eval py_eval]. autorewrite with disp.
+    apply (two_operands sub en e1 e2 (fun va vi s => of_res (py_getitem va vi) s)
+                        (fun va vi => pres_of (py_getitem va vi))); auto.
+    intros. apply fst_of_res.
 Qed.
 
-Lemma eval_equals_python_allops_l : forall sub en e v, supported e = true ->
+Lemma eval_equals_python_allops_l : forall sub en e v, supported e = true -> subs_ok sub e ->
   py_eval en e = PVal v -> fst (tmpl_eval sub en e) = TVal v.
-Proof. intros. rewrite tmpl_matches_python by assumption. rewrite H0. reflexivity. Qed.
+Proof. intros. rewrite tmpl_matches_python by assumption. rewrite H1. reflexivity. Qed.
 
 (* the value a typed template must deliver for a Python value *)
 Definition deliver (k : kind) (dflt : value) (v : value) : outcome :=
@@ -117,7 +200,7 @@ Definition deliver (k : kind) (dflt : value) (v : value) : outcome :=
 Lemma evaluate_equals_python_l : forall k d en e v, supported e = true ->
   py_eval en e = PVal v -> evaluate k d en e = deliver k d v.
 Proof.
-  intros. unfold evaluate. rewrite (eval_equals_python_allops_l false en e v) by assumption.
+  intros. unfold evaluate. rewrite (eval_equals_python_allops_l false en e v) by (auto; left; reflexivity).
   destruct v; reflexivity.
 Qed.
 
@@ -125,86 +208,209 @@ Lemma type_error_gives_default_l : forall k d en e, supported e = true ->
   (py_eval en e = PTypeErr \/ py_eval en e = PNameErr \/ py_eval en e = PReadErr) ->
   evaluate k d en e = OVal d.
 Proof.
-  intros k d en e S H. unfold evaluate. rewrite tmpl_matches_python by assumption.
+  intros k d en e S H. unfold evaluate. rewrite tmpl_matches_python by (auto; left; reflexivity).
   destruct H as [H | [H | H]]; rewrite H; reflexivity.
 Qed.
 
-Lemma type_error_gives_default_subscribed_l : forall k d en e, supported e = true ->
+Definition outcome_of (k : kind) (d : value) (t : tres) : outcome :=
+  match t with
+  | TVal VNone | TEvalErr => convert k d
+  | TVal v => convert k v
+  | TValueErr | TCrash => OAssert
+  | TUnsup => OUnsup
+  end.
+
+Lemma eas_fst k d en e : fst (evaluate_and_subscribe k d en e) = outcome_of k d (fst (tmpl_eval true en e)).
+Proof. unfold evaluate_and_subscribe. destruct (tmpl_eval true en e) as [[v| | | |] s]; try destruct v; reflexivity. Qed.
+
+(* complete characterisation of evaluate_and_subscribe by Python's result *)
+Lemma subscribed_outcome_l : forall k d en e, supported e = true -> subscribable e = true ->
+  fst (evaluate_and_subscribe k d en e) = outcome_of k d (expected true (py_eval en e)).
+Proof. intros. rewrite eas_fst. rewrite tmpl_matches_python by (auto; right; assumption). reflexivity. Qed.
+
+Lemma type_error_gives_default_subscribed_l : forall k d en e, supported e = true -> subscribable e = true ->
   (py_eval en e = PTypeErr \/ py_eval en e = PReadErr) ->
   fst (evaluate_and_subscribe k d en e) = convert k d.
 Proof.
-  intros k d en e S H. unfold evaluate_and_subscribe.
-  pose proof (tmpl_matches_python true en e S) as M.
-  destruct (tmpl_eval true en e) as [t s]; cbn [fst] in M; subst t.
+  intros k d en e S G H. rewrite subscribed_outcome_l by assumption.
   destruct H as [H | H]; rewrite H; reflexivity.
 Qed.
 
-Lemma subscribed_equals_python_l : forall k d en e v, supported e = true ->
+Lemma subscribed_equals_python_l : forall k d en e v, supported e = true -> subscribable e = true ->
   py_eval en e = PVal v ->
   fst (evaluate_and_subscribe k d en e) = match v with VNone => convert k d | _ => convert k v end.
 Proof.
-  intros k d en e v S H. unfold evaluate_and_subscribe.
-  pose proof (tmpl_matches_python true en e S) as M.
-  destruct (tmpl_eval true en e) as [t s]; cbn [fst] in M; subst t.
-  rewrite H. destruct v; reflexivity.
+  intros k d en e v S G H. rewrite subscribed_outcome_l by assumption. rewrite H. destruct v; reflexivity.
 Qed.
 
-(* ---- subscriptions cover reads ------------------------------------------------------------------ *)
-Lemma val_inv sub en e v s : supported e = true -> tmpl_eval sub en e = (TVal v, s) -> py_eval en e = PVal v.
+(* a missing parameter while subscribing: AssertionError (by design of evaluate_and_subscribe_template) *)
+Lemma missing_parameter_subscribed_l : forall k d en e, supported e = true -> subscribable e = true ->
+  py_eval en e = PNameErr -> fst (evaluate_and_subscribe k d en e) = OAssert.
+Proof. intros k d en e S G H. rewrite subscribed_outcome_l by assumption. rewrite H. reflexivity. Qed.
+
+(* mode.* and game.* cannot be subscribed: evaluate_and_subscribe raises, it never returns a value *)
+Lemma unsubscribable_read_raises_l : forall k d en r, unsubscribable r = true ->
+  evaluate_and_subscribe k d en (ERead r) = (OAssert, []).
 Proof.
-  intros S H. pose proof (tmpl_matches_python sub en e S) as M. rewrite H in M. cbn in M.
-  symmetry in M. eapply expected_val; eauto.
+  intros k d en r U. unfold evaluate_and_subscribe. cbn [tmpl_eval]. rewrite read_node_eq.
+  destruct r as [l | |]; try discriminate. destruct l; try discriminate; cbn.
+  - reflexivity.
+  - destruct (game en); reflexivity.
 Qed.
 
+(* ---- a value returned by the walk is Python's value (no guard on mode / game needed) ------------- *)
 Lemma tbind_val r k v s : tbind r k = (TVal v, s) -> exists va sa, r = (TVal va, sa) /\ k va sa = (TVal v, s).
 Proof. destruct r as [[] sa]; cbn; intro H; try discriminate. eauto. Qed.
 
-Lemma of_res_val r s v s' : of_res r s = (TVal v, s') -> s' = s.
-Proof. destruct r; cbn; intro H; inversion H; reflexivity. Qed.
+Lemma of_res_val r s v s' : of_res r s = (TVal v, s') -> r = Val v /\ s' = s.
+Proof. destruct r; cbn; intro H; inversion H; auto. Qed.
 
 Lemma with_subs_val s r v s' : with_subs s r = (TVal v, s') -> exists s2, r = (TVal v, s2) /\ s' = s ++ s2.
 Proof. destruct r as [[] s2]; cbn; intro H; inversion H; subst; eauto. Qed.
 
-Lemma subscriptions_cover_reads_l : forall en e v ss, supported e = true ->
-  tmpl_eval true en e = (TVal v, ss) -> incl (reads en e) ss.
+Lemma read_walk_val sub en r v s : read_walk sub en r = (TVal v, s) ->
+  rread en r = RVal v /\ s = (if sub then rsubs r else []) /\ (sub = true -> unsubscribable r = false).
 Proof.
-  intros en e. induction e; intros v ss S H; cbn [supported] in S; cbn [reads];
-    try (intros y Hy; solve [destruct Hy]).
-  - (* ERead *) cbn in H. destruct (sread en l); inversion H; subst. intros y Hy. exact Hy.
-  - (* EBin *)
-    apply andb_true_iff in S as [S Sb]. apply andb_true_iff in S as [So Sa].
-    cbn [tmpl_eval] in H. apply tbind_val in H as [va [sa [Ha H]]]. apply tbind_val in H as [vb [sb [Hb H]]].
-    rewrite (val_inv _ _ _ _ _ Sa Ha).
-    destruct (operators o); [|discriminate]. apply of_res_val in H. subst ss.
-    apply incl_app; [apply incl_appl; eapply IHe1 | apply incl_appr; eapply IHe2]; eauto.
-  - (* EUn *)
-    apply andb_true_iff in S as [So Sa].
-    cbn [tmpl_eval] in H. apply tbind_val in H as [va [sa [Ha H]]].
-    destruct (operators o); [|discriminate]. apply of_res_val in H. subst ss. eapply IHe; eauto.
-  - (* ECmp *)
-    apply andb_true_iff in S as [S Sb]. apply andb_true_iff in S as [So Sa].
-    cbn [tmpl_eval] in H. apply tbind_val in H as [va [sa [Ha H]]]. apply tbind_val in H as [vb [sb [Hb H]]].
-    rewrite (val_inv _ _ _ _ _ Sa Ha).
-    destruct (comparisons o); [|discriminate]. apply of_res_val in H. subst ss.
-    apply incl_app; [apply incl_appl; eapply IHe1 | apply incl_appr; eapply IHe2]; eauto.
-  - (* EBool *)
-    apply andb_true_iff in S as [Sa Sb].
-    cbn [tmpl_eval] in H. apply tbind_val in H as [va [sa [Ha H]]]. apply tbind_val in H as [vb [sb [Hb H]]].
-    rewrite (val_inv _ _ _ _ _ Sa Ha).
-    destruct (bool_operators o); [|discriminate]. inversion H; subst.
-    apply incl_app; [apply incl_appl; eapply IHe1 | apply incl_appr; eapply IHe2]; eauto.
-  - (* EIf *)
-    apply andb_true_iff in S as [S Sb]. apply andb_true_iff in S as [Sc Sa].
-    cbn [tmpl_eval] in H. apply tbind_val in H as [vc [sc [Hc H]]].
-    rewrite (val_inv _ _ _ _ _ Sc Hc).
-    apply with_subs_val in H as [s2 [H ->]].
-    apply incl_app; [apply incl_appl; eapply IHe1; eauto | apply incl_appr].
-    destruct (truthy vc); [eapply IHe2 | eapply IHe3]; eauto.
+  intro H.
+  assert (G : forall r', (unsubscribable r' = false) ->
+     (match rread en r' with
+      | RVal v => (TVal v, if sub then rsubs r' else [])
+      | RValErr => if sub then (TEvalErr, rsubs r') else (TValueErr, [])
+      | RCrash => (TCrash, [])
+      end) = (TVal v, s) ->
+     rread en r' = RVal v /\ s = (if sub then rsubs r' else []) /\ (sub = true -> unsubscribable r' = false)).
+  { intros r' U. destruct (rread en r'); intro E; try (destruct sub; discriminate); inversion E; subst. auto. }
+  destruct r as [l | x | i x]; [|apply G; auto|apply G; auto].
+  destruct l; try (apply G; auto; fail).
+  - (* LMode *) unfold read_walk in H. destruct sub; [discriminate|].
+    destruct (rread en (RCell (LMode m a))); inversion H; subst. repeat split. intro Q; discriminate Q.
+  - (* LGame *) unfold read_walk, rread in H |- *. destruct (game en); [|discriminate].
+    destruct sub; [discriminate|].
+    destruct (sread en (LGame a)); inversion H; subst. repeat split. intro Q; discriminate Q.
 Qed.
 
-(* ---- the outcome can only change when a subscribed location changes ---------------------------- *)
+Lemma val_inv : forall sub en e v s, supported e = true -> tmpl_eval sub en e = (TVal v, s) -> py_eval en e = PVal v.
+Proof.
+  intros sub en e. induction e; intros v ss S H; cbn [supported] in S; cbn [tmpl_eval] in H; autorewrite with disp in H;
+    cbn [py_eval].
+  - inversion H; reflexivity.
+  - inversion H; reflexivity.
+  - inversion H; reflexivity.
+  - inversion H; reflexivity.
+  - inversion H; reflexivity.
+  - destruct (assoc_z x (params en)); inversion H; reflexivity.
+  - rewrite read_match_eq in H. apply read_walk_val in H as [-> _]. reflexivity.
+  - apply andb_true_iff in S as [S Sb]. apply andb_true_iff in S as [So Sa].
+    apply tbind_val in H as [va [sa [Ha H]]]. apply tbind_val in H as [vb [sb [Hb H]]].
+    rewrite (IHe1 _ _ Sa Ha), (IHe2 _ _ Sb Hb). cbn.
+    destruct (operators_bin_ok o So) as [p [Hp Hc]]. rewrite Hp in H.
+    apply of_res_val in H as [H _]. rewrite <- Hc, H. reflexivity.
+  - apply andb_true_iff in S as [So Sa].
+    apply tbind_val in H as [va [sa [Ha H]]].
+    rewrite (IHe _ _ Sa Ha). cbn.
+    destruct (operators_un_ok o So) as [p [Hp Hc]]. rewrite Hp in H.
+    apply of_res_val in H as [H _]. rewrite <- Hc, H. reflexivity.
+  - apply andb_true_iff in S as [S Sb]. apply andb_true_iff in S as [So Sa].
+    apply tbind_val in H as [va [sa [Ha H]]]. apply tbind_val in H as [vb [sb [Hb H]]].
+    rewrite (IHe1 _ _ Sa Ha), (IHe2 _ _ Sb Hb). cbn.
+    destruct (comparisons_ok o So) as [p [Hp Hc]]. rewrite Hp in H.
+    apply of_res_val in H as [H _]. rewrite <- Hc, H. reflexivity.
+  - apply andb_true_iff in S as [Sa Sb].
+    apply tbind_val in H as [va [sa [Ha H]]]. apply tbind_val in H as [vb [sb [Hb H]]].
+    rewrite (IHe1 _ _ Sa Ha), (IHe2 _ _ Sb Hb). cbn.
+    destruct (bool_operators_ok o) as [p [Hp Hc]]. rewrite Hp in H.
+    inversion H; subst. rewrite Hc. reflexivity.
+  - apply andb_true_iff in S as [S Sb]. apply andb_true_iff in S as [Sc Sa].
+    apply tbind_val in H as [vc [sc [Hc H]]].
+    rewrite (IHe1 _ _ Sc Hc). cbn.
+    apply with_subs_val in H as [s2 [H _]].
+    destruct (truthy vc); [eapply IHe2 | eapply IHe3]; eauto.
+  - inversion H; reflexivity.
+  - apply andb_true_iff in S as [S Sb]. apply andb_true_iff in S as [St Sa].
+    apply tbind_val in H as [va [sa [Ha H]]]. apply tbind_val in H as [vb [sb [Hb H]]].
+    rewrite (IHe1 _ _ Sa Ha), (IHe2 _ _ Sb Hb). cbn.
+    destruct vb; inversion H; reflexivity.
+  - apply andb_true_iff in S as [Sa Sb].
+    apply tbind_val in H as [va [sa [Ha H]]]. apply tbind_val in H as [vb [sb [Hb H]]].
+    rewrite (IHe1 _ _ Sa Ha), (IHe2 _ _ Sb Hb). cbn.
+    apply of_res_val in H as [H _]. rewrite H. reflexivity.
+Qed.
+
+(* ---- subscriptions cover reads ------------------------------------------------------------------ *)
+Definition covered (cells : list loc) (s : list loc) : Prop := forall l, In l cells -> In (chan_of l) s.
+
+Lemma covered_app c1 c2 s1 s2 : covered c1 s1 -> covered c2 s2 -> covered (c1 ++ c2) (s1 ++ s2).
+Proof.
+  intros H1 H2 l I. apply in_app_or in I as [I | I]; apply in_or_app; [left; apply H1 | right; apply H2]; assumption.
+Qed.
+
+Lemma covered_l c s1 s2 : covered c s1 -> covered c (s1 ++ s2).
+Proof. intros H l I. apply in_or_app; left; apply H; assumption. Qed.
+
+Lemma rcells_covered en r : supported_read r = true -> unsubscribable r = false -> covered (rcells en r) (rsubs r).
+Proof.
+  intros S U l I. destruct r as [c | x | i x].
+  - destruct c; try discriminate; cbn in *; destruct I as [<- | []]; left; reflexivity.
+  - cbn in I. destruct I as [<- | I]; [left; reflexivity|].
+    destruct (game en) as [[c n]|]; [|destruct I]. destruct I as [<- | []]. right; left; reflexivity.
+  - cbn in I. destruct I as [<- | I]; [left; reflexivity|].
+    destruct (game en) as [[c n]|]; [|destruct I].
+    destruct ((0 <=? i) && (i <? n)); [|destruct I]. destruct I as [<- | []]. right; left; reflexivity.
+Qed.
+
+Lemma subscriptions_cover_reads_l : forall en e v ss, supported e = true ->
+  tmpl_eval true en e = (TVal v, ss) -> covered (reads en e) ss.
+Proof.
+  intros en e. induction e; intros v ss S H; cbn [supported] in S; cbn [reads];
+    cbn [tmpl_eval] in H; autorewrite with disp in H;
+    try (intros y Hy; solve [destruct Hy]).
+  - (* ERead *)
+    rewrite read_match_eq in H. apply read_walk_val in H as [_ [-> U]].
+    apply rcells_covered; auto.
+  - (* EBin *)
+    apply andb_true_iff in S as [S Sb]. apply andb_true_iff in S as [So Sa].
+    apply tbind_val in H as [va [sa [Ha H]]]. apply tbind_val in H as [vb [sb [Hb H]]].
+    rewrite (val_inv _ _ _ _ _ Sa Ha).
+    destruct (operators o); [|discriminate]. apply of_res_val in H as [_ ->].
+    apply covered_app; eauto.
+  - (* EUn *)
+    apply andb_true_iff in S as [So Sa].
+    apply tbind_val in H as [va [sa [Ha H]]].
+    destruct (operators o); [|discriminate]. apply of_res_val in H as [_ ->]. eauto.
+  - (* ECmp *)
+    apply andb_true_iff in S as [S Sb]. apply andb_true_iff in S as [So Sa].
+    apply tbind_val in H as [va [sa [Ha H]]]. apply tbind_val in H as [vb [sb [Hb H]]].
+    rewrite (val_inv _ _ _ _ _ Sa Ha).
+    destruct (comparisons o); [|discriminate]. apply of_res_val in H as [_ ->].
+    apply covered_app; eauto.
+  - (* EBool *)
+    apply andb_true_iff in S as [Sa Sb].
+    apply tbind_val in H as [va [sa [Ha H]]]. apply tbind_val in H as [vb [sb [Hb H]]].
+    rewrite (val_inv _ _ _ _ _ Sa Ha).
+    destruct (bool_operators o); [|discriminate]. inversion H; subst.
+    apply covered_app; eauto.
+  - (* EIf *)
+    apply andb_true_iff in S as [S Sb]. apply andb_true_iff in S as [Sc Sa].
+    apply tbind_val in H as [vc [sc [Hc H]]].
+    rewrite (val_inv _ _ _ _ _ Sc Hc).
+    apply with_subs_val in H as [s2 [H ->]].
+    apply covered_app; [eauto|].
+    destruct (truthy vc); [eapply IHe2 | eapply IHe3]; eauto.
+  - (* ETupCons *)
+    apply andb_true_iff in S as [S Sb]. apply andb_true_iff in S as [St Sa].
+    apply tbind_val in H as [va [sa [Ha H]]]. apply tbind_val in H as [vb [sb [Hb H]]].
+    rewrite (val_inv _ _ _ _ _ Sa Ha).
+    destruct vb; inversion H; subst. apply covered_app; eauto.
+  - (* EIndex *)
+    apply andb_true_iff in S as [Sa Sb].
+    apply tbind_val in H as [va [sa [Ha H]]]. apply tbind_val in H as [vb [sb [Hb H]]].
+    rewrite (val_inv _ _ _ _ _ Sa Ha).
+    apply of_res_val in H as [_ ->]. apply covered_app; eauto.
+Qed.
+
+(* ---- the outcome can only change when a cell behind a subscribed channel changes ---------------- *)
 Definition agree_on (s : list loc) (en en' : env) : Prop :=
-  params en = params en' /\ forall l, In l s -> sread en l = sread en' l.
+  params en = params en' /\ forall l, In (chan_of l) s -> sread en l = sread en' l.
 
 Definition tres_ok (r : tres) : bool := match r with TVal _ | TEvalErr => true | _ => false end.
 
@@ -215,6 +421,50 @@ Proof. intros [P H]; split; auto. intros; apply H; apply in_or_app; auto. Qed.
 
 Lemma of_res_ok r s r' s' : of_res r s = (r', s') -> tres_ok r' = true -> s' = s.
 Proof. destruct r; cbn; intros H O; inversion H; subst; try reflexivity; discriminate. Qed.
+
+(* what a name reads is determined by the cells behind the channels it subscribes to *)
+Lemma rread_agree en en' r : supported_read r = true -> unsubscribable r = false ->
+  agree_on (rsubs r) en en' -> rread en r = rread en' r.
+Proof.
+  intros S U [_ A]. destruct r as [l | x | i x].
+  - destruct l; try discriminate; cbn [rread]; apply A; left; reflexivity.
+  - cbn [rread].
+    pose proof (A LTurn (or_introl eq_refl)) as T. cbn [sread] in T.
+    destruct (game en) as [[c n]|], (game en') as [[c' n']|]; try discriminate; [|reflexivity].
+    inversion T; subst. rewrite H0. apply A. right; left; reflexivity.
+  - cbn [rread].
+    pose proof (A LPlayers (or_introl eq_refl)) as T. cbn [sread] in T.
+    destruct (game en) as [[c n]|], (game en') as [[c' n']|]; try discriminate; [|reflexivity].
+    inversion T; subst. rewrite H0.
+    destruct ((0 <=? i) && (i <? n')); [|reflexivity]. apply A. right; left; reflexivity.
+Qed.
+
+Lemma read_walk_determined en en' r res ss : supported_read r = true ->
+  read_walk true en r = (res, ss) -> tres_ok res = true -> agree_on ss en en' ->
+  read_walk true en' r = (res, ss).
+Proof.
+  intros S H O A.
+  assert (U : unsubscribable r = false).
+  { destruct r as [l | |]; try reflexivity. destruct l; try reflexivity; cbn in H.
+    - inversion H; subst; discriminate.
+    - destruct (game en); inversion H; subst; discriminate. }
+  assert (G : read_walk true en r = match rread en r with
+                                    | RVal v => (TVal v, rsubs r)
+                                    | RValErr => (TEvalErr, rsubs r)
+                                    | RCrash => (TCrash, [])
+                                    end).
+  { destruct r as [l | |]; try reflexivity. destruct l; try reflexivity; discriminate. }
+  assert (G' : read_walk true en' r = match rread en' r with
+                                      | RVal v => (TVal v, rsubs r)
+                                      | RValErr => (TEvalErr, rsubs r)
+                                      | RCrash => (TCrash, [])
+                                      end).
+  { destruct r as [l | |]; try reflexivity. destruct l; try reflexivity; discriminate. }
+  rewrite G in H. rewrite G'.
+  assert (ss = rsubs r) as ->.
+  { destruct (rread en r); inversion H; subst; try reflexivity; discriminate. }
+  rewrite <- (rread_agree en en' r S U A). exact H.
+Qed.
 
 (* shape of a two-operand node whose callee [k] is environment independent *)
 Lemma two_operands_determined en en' a b (k : value -> value -> list loc -> tres * list loc) r s :
@@ -256,61 +506,68 @@ Proof.
     + destruct (tmpl_eval true en' a) as [[] sa']; cbn in *; try discriminate; auto.
 Qed.
 
-Lemma outcome_determined_by_subscriptions_l : forall e en en' r ss,
+Lemma outcome_determined_by_subscriptions_l : forall e en en' r ss, supported e = true ->
   tmpl_eval true en e = (r, ss) -> tres_ok r = true -> agree_on ss en en' ->
   fst (tmpl_eval true en' e) = r \/ tres_ok (fst (tmpl_eval true en' e)) = false.
 Proof.
-  induction e; intros en en' r ss H O A.
+  induction e as [z|n d|s0| |b|x|rd|o e1 IHe1 e2 IHe2|o e IHe|o e1 IHe1 e2 IHe2|o e1 IHe1 e2 IHe2
+                  |e1 IHe1 e2 IHe2 e3 IHe3| |e1 IHe1 e2 IHe2|e1 IHe1 e2 IHe2];
+    intros en en' r ss S H O A; cbn [supported] in S;
+    cbn [tmpl_eval] in H |- *; autorewrite with disp in H |- *.
   - inversion H; subst; left; reflexivity.
   - inversion H; subst; left; reflexivity.
   - inversion H; subst; left; reflexivity.
   - inversion H; subst; left; reflexivity.
-  - cbn in *. destruct A as [P _]. rewrite <- P.
+  - inversion H; subst; left; reflexivity.
+  - destruct A as [P _]. rewrite <- P.
     destruct (assoc_z x (params en)); inversion H; subst; auto.
-  - cbn in *. destruct A as [_ A].
-    destruct (sread en l) eqn:E; inversion H; subst; try discriminate;
-      rewrite <- (A l (or_introl eq_refl)); rewrite E; auto.
-  - cbn [tmpl_eval] in *. destruct (operators o) as [p|].
+  - rewrite read_match_eq in H |- *. left.
+    rewrite (read_walk_determined en en' rd r ss S H O A). reflexivity.
+  - apply andb_true_iff in S as [S Sb]. apply andb_true_iff in S as [So Sa].
+    destruct (operators o) as [p|].
     + eapply (two_operands_determined en en' e1 e2 (fun va vb s => of_res (prim_call2 p va vb) s)); eauto.
       * intros. eapply of_res_ok; eauto.
       * intros. destruct (prim_call2 p va vb); reflexivity.
     + eapply (two_operands_determined en en' e1 e2 (fun va vb s => (TCrash, []))); eauto.
       intros ? ? ? ? ? E O'. inversion E; subst; discriminate.
-  - cbn [tmpl_eval] in *.
+  - apply andb_true_iff in S as [So Sa].
     destruct (tmpl_eval true en e) as [ta sa] eqn:Ea.
     destruct ta as [va| | | |]; cbn [tbind] in H; try (inversion H; subst; discriminate).
     + assert (ss = sa) as ->.
       { destruct (operators o); [eapply of_res_ok; eauto | inversion H; subst; discriminate]. }
-      destruct (IHe _ en' _ _ Ea eq_refl A) as [Ha' | Ha'].
+      destruct (IHe _ en' _ _ Sa Ea eq_refl A) as [Ha' | Ha'].
       * destruct (tmpl_eval true en' e) as [ta' sa']; cbn [fst] in Ha'; subst ta'. cbn [tbind].
         left. destruct (operators o); [|inversion H; subst; reflexivity].
         destruct (prim_call1 p va); cbn in *; inversion H; subst; reflexivity.
       * right. destruct (tmpl_eval true en' e) as [[] sa']; cbn in *; try discriminate; reflexivity.
     + inversion H; subst r ss.
-      destruct (IHe _ en' _ _ Ea eq_refl A) as [Ha' | Ha'].
+      destruct (IHe _ en' _ _ Sa Ea eq_refl A) as [Ha' | Ha'].
       * destruct (tmpl_eval true en' e) as [ta' sa']; cbn [fst] in Ha'; subst ta'. cbn. auto.
       * destruct (tmpl_eval true en' e) as [[] sa']; cbn in *; try discriminate; auto.
-  - cbn [tmpl_eval] in *. destruct (comparisons o) as [p|].
+  - apply andb_true_iff in S as [S Sb]. apply andb_true_iff in S as [So Sa].
+    destruct (comparisons o) as [p|].
     + eapply (two_operands_determined en en' e1 e2 (fun va vb s => of_res (prim_call2 p va vb) s)); eauto.
       * intros. eapply of_res_ok; eauto.
       * intros. destruct (prim_call2 p va vb); reflexivity.
     + eapply (two_operands_determined en en' e1 e2 (fun va vb s => (TCrash, []))); eauto.
       intros ? ? ? ? ? E O'. inversion E; subst; discriminate.
-  - cbn [tmpl_eval] in *. destruct (bool_operators o) as [p|].
+  - apply andb_true_iff in S as [Sa Sb].
+    destruct (bool_operators o) as [p|].
     + eapply (two_operands_determined en en' e1 e2 (fun va vb s => (TVal (bprim_call p va vb), s))); eauto.
       intros ? ? ? ? ? E O'. inversion E; subst; reflexivity.
     + eapply (two_operands_determined en en' e1 e2 (fun va vb s => (TCrash, []))); eauto.
       intros ? ? ? ? ? E O'. inversion E; subst; discriminate.
-  - cbn [tmpl_eval] in *.
+  - apply andb_true_iff in S as [S Sb]. apply andb_true_iff in S as [Sc Sa].
     destruct (tmpl_eval true en e1) as [tc sc] eqn:Ec.
     destruct tc as [vc| | | |]; cbn [tbind] in H; try (inversion H; subst; discriminate).
     + set (br := if truthy vc then e2 else e3).
+      assert (Sbr : supported br = true) by (subst br; destruct (truthy vc); assumption).
       assert (Hbr : with_subs sc (tmpl_eval true en br) = (r, ss)).
       { subst br. destruct (truthy vc); exact H. }
       destruct (tmpl_eval true en br) as [tb sb] eqn:Eb.
       assert (ss = sc ++ sb /\ tb = r) as [-> ->].
       { destruct tb; cbn in Hbr; inversion Hbr; subst; try discriminate; auto. }
-      destruct (IHe1 _ en' _ _ Ec eq_refl (agree_app_l _ _ _ _ A)) as [Hc' | Hc'].
+      destruct (IHe1 _ en' _ _ Sc Ec eq_refl (agree_app_l _ _ _ _ A)) as [Hc' | Hc'].
       * destruct (tmpl_eval true en' e1) as [tc' sc']; cbn [fst] in Hc'; subst tc'. cbn [tbind].
         rewrite fst_with_subs.
         assert (IHbr : fst (tmpl_eval true en' br) = r \/ tres_ok (fst (tmpl_eval true en' br)) = false).
@@ -318,52 +575,68 @@ Proof.
         subst br. destruct (truthy vc); exact IHbr.
       * right. destruct (tmpl_eval true en' e1) as [[] sc']; cbn in *; try discriminate; reflexivity.
     + inversion H; subst r ss.
-      destruct (IHe1 _ en' _ _ Ec eq_refl A) as [Hc' | Hc'].
+      destruct (IHe1 _ en' _ _ Sc Ec eq_refl A) as [Hc' | Hc'].
       * destruct (tmpl_eval true en' e1) as [tc' sc']; cbn [fst] in Hc'; subst tc'. cbn. auto.
       * destruct (tmpl_eval true en' e1) as [[] sc']; cbn in *; try discriminate; auto.
+  - inversion H; subst; left; reflexivity.
+  - apply andb_true_iff in S as [S Sb]. apply andb_true_iff in S as [St Sa].
+    eapply (two_operands_determined en en' e1 e2
+              (fun va vr s => match vr with VTuple l => (TVal (VTuple (va :: l)), s) | _ => (TUnsup, []) end)); eauto.
+    + intros va vb s1 r1 s2 E O'. destruct vb; inversion E; subst; try discriminate. reflexivity.
+    + intros va vb s1 s2. destruct vb; reflexivity.
+  - apply andb_true_iff in S as [Sa Sb].
+    eapply (two_operands_determined en en' e1 e2 (fun va vi s => of_res (py_getitem va vi) s)); eauto.
+    + intros. eapply of_res_ok; eauto.
+    + intros. destruct (py_getitem va vb); reflexivity.
 Qed.
 
-(* ---- change histories: the subscriber never holds a stale value --------------------------------- *)
-Lemma value_eqb_eq a b : value_eqb a b = true -> a = b.
+(* ---- structural equality ----------------------------------------------------------------------- *)
+Fixpoint value_ind2 (P : value -> Prop) (HNone : P VNone) (HBool : forall b, P (VBool b))
+         (HInt : forall z, P (VInt z)) (HStr : forall s, P (VStr s)) (HFloat : forall n d, P (VFloat n d))
+         (HTuple : forall l, Forall P l -> P (VTuple l)) (v : value) {struct v} : P v :=
+  match v with
+  | VNone => HNone
+  | VBool b => HBool b
+  | VInt z => HInt z
+  | VStr s => HStr s
+  | VFloat n d => HFloat n d
+  | VTuple l =>
+      HTuple l ((fix go (l : list value) : Forall P l :=
+                   match l with
+                   | [] => Forall_nil P
+                   | x :: l' => Forall_cons x (value_ind2 P HNone HBool HInt HStr HFloat HTuple x) (go l')
+                   end) l)
+  end.
+
+Lemma value_eqb_eq : forall a b, value_eqb a b = true -> a = b.
 Proof.
-  destruct a, b; cbn; intro H; try discriminate; try reflexivity.
-  - apply Bool.eqb_prop in H. congruence.
-  - apply Z.eqb_eq in H. congruence.
-  - apply zs_eqb_spec in H. congruence.
+  intro a. induction a using value_ind2; intros b' E; destruct b'; cbn in E; try discriminate; try reflexivity.
+  - apply Bool.eqb_prop in E. congruence.
+  - apply Z.eqb_eq in E. congruence.
+  - apply zs_eqb_spec in E. congruence.
+  - apply andb_true_iff in E as [E1 E2]. apply Z.eqb_eq in E1. apply Pos.eqb_eq in E2. congruence.
+  - f_equal. revert l0 E. induction H as [|x l Hx Hl IH]; intros [|y m] E; try discriminate; try reflexivity.
+    apply andb_true_iff in E as [E1 E2]. f_equal; [apply Hx; exact E1 | apply IH; exact E2].
 Qed.
 
 Lemma loc_eqb_eq x y : loc_eqb x y = true <-> x = y.
 Proof.
   split.
-  - destruct x, y; cbn; intro H; try discriminate;
+  - destruct x, y; cbn; intro H; try discriminate; try reflexivity;
       repeat (apply andb_true_iff in H as [H ?]);
-      repeat match goal with E : zs_eqb _ _ = true |- _ => apply zs_eqb_spec in E end; congruence.
-  - intros <-. destruct x; cbn; repeat (apply andb_true_iff; split); apply zs_eqb_spec; reflexivity.
+      repeat match goal with
+             | E : zs_eqb _ _ = true |- _ => apply zs_eqb_spec in E
+             | E : (_ =? _) = true |- _ => apply Z.eqb_eq in E
+             end; congruence.
+  - intros <-. destruct x; cbn; try reflexivity; repeat (apply andb_true_iff; split);
+      try (apply zs_eqb_spec; reflexivity); apply Z.eqb_refl.
 Qed.
+
+Lemma loc_eqb_refl x : loc_eqb x x = true.
+Proof. apply loc_eqb_eq. reflexivity. Qed.
 
 Lemma loc_eqb_neq x y : x <> y -> loc_eqb x y = false.
 Proof. intro N. destruct (loc_eqb x y) eqn:E; [apply loc_eqb_eq in E; contradiction | reflexivity]. Qed.
-
-Lemma sread_set_other en l r l' : l' <> l -> sread (set_store l r en) l' = sread en l'.
-Proof.
-  intro N. unfold sread, set_store. cbn [store in_game lookup_loc].
-  rewrite (loc_eqb_neq _ _ N). reflexivity.
-Qed.
-
-Lemma lookup_remove_other l l' s : l' <> l -> lookup_loc l' (remove_loc l s) = lookup_loc l' s.
-Proof.
-  intro N. induction s as [|[k v] s IH]; cbn; [reflexivity|].
-  destruct (loc_eqb l k) eqn:E.
-  - apply loc_eqb_eq in E. subst k. rewrite (loc_eqb_neq _ _ N). exact IH.
-  - cbn. rewrite IH. reflexivity.
-Qed.
-
-Lemma sread_apply_other en c l : l <> changed_loc c -> sread (apply_change en c) l = sread en l.
-Proof.
-  intro N. destruct c; try (apply sread_set_other; exact N).
-  cbn in N. unfold sread, apply_change. cbn [store in_game].
-  rewrite (lookup_remove_other _ _ _ N). reflexivity.
-Qed.
 
 Definition rd_eqb (a b : rd) : bool :=
   match a, b with
@@ -374,32 +647,91 @@ Definition rd_eqb (a b : rd) : bool :=
 Lemma rd_eqb_eq a b : rd_eqb a b = true -> a = b.
 Proof. destruct a, b; cbn; intro H; try discriminate; try reflexivity. apply value_eqb_eq in H. congruence. Qed.
 
-(* a change is honest when it is announced or leaves what a template reads at that location as it was *)
-Definition honest (en : env) (c : change) : bool :=
-  announces en c || rd_eqb (sread (apply_change en c) (changed_loc c)) (sread en (changed_loc c)).
+Lemma existsb_loc_in l s : existsb (loc_eqb l) s = true <-> In l s.
+Proof.
+  split.
+  - intro H. apply existsb_exists in H as [y [I E]]. apply loc_eqb_eq in E. subst. exact I.
+  - intro I. apply existsb_exists. exists l. split; auto. apply loc_eqb_refl.
+Qed.
 
-Fixpoint honest_run (en : env) (cs : list change) : bool :=
+(* ---- frame: a change leaves every cell outside changed_locs as it was ---------------------------- *)
+Lemma lookup_app_other l w s : ~ In l (map fst w) -> lookup_loc l (w ++ s) = lookup_loc l s.
+Proof.
+  induction w as [|[k v] w IH]; cbn; intro N; [reflexivity|].
+  rewrite loc_eqb_neq by (intro Q; apply N; left; symmetry; exact Q).
+  apply IH. intro I. apply N. right. exact I.
+Qed.
+
+Lemma lookup_remove_other l l' s : l' <> l -> lookup_loc l' (remove_loc l s) = lookup_loc l' s.
+Proof.
+  intro N. induction s as [|[k v] s IH]; cbn; [reflexivity|].
+  destruct (loc_eqb l k) eqn:E.
+  - apply loc_eqb_eq in E. subst k. rewrite (loc_eqb_neq _ _ N). exact IH.
+  - cbn. rewrite IH. reflexivity.
+Qed.
+
+Lemma store_apply en c :
+  store (apply_change en c) = match c with
+                              | CRemoveMachine n => remove_loc (LMachine n) (store en)
+                              | _ => writes en c ++ store en
+                              end.
+Proof. unfold apply_change. destruct (new_game en c). reflexivity. Qed.
+
+Lemma params_apply en c : params (apply_change en c) = params en.
+Proof. unfold apply_change. destruct (new_game en c). reflexivity. Qed.
+
+Lemma game_apply en c : (games (apply_change en c), game (apply_change en c)) = new_game en c.
+Proof. unfold apply_change. destruct (new_game en c). reflexivity. Qed.
+
+Definition lifecycle (c : change) : bool :=
+  match c with CStartGame | CAddPlayer | CNextTurn | CEndGame _ => true | _ => false end.
+
+Lemma new_game_other en c : lifecycle c = false -> new_game en c = (games en, game en).
+Proof. destruct c; cbn; intro H; try discriminate; reflexivity. Qed.
+
+Lemma lookup_apply_other en c l : ~ In l (changed_locs en c) ->
+  lookup_loc l (store (apply_change en c)) = lookup_loc l (store en).
+Proof.
+  intro N. rewrite store_apply.
+  destruct c; try (apply lookup_app_other; intro I; apply N; cbn [changed_locs]; auto; right; right; exact I).
+  apply lookup_remove_other. intro Q. apply N. left. symmetry. exact Q.
+Qed.
+
+Lemma sread_apply_other en c l : ~ In l (changed_locs en c) -> sread (apply_change en c) l = sread en l.
+Proof.
+  intro N. pose proof (lookup_apply_other en c l N) as L.
+  destruct l; cbn [sread]; try (rewrite L; reflexivity); try reflexivity.
+  - (* LTurn *)
+    destruct (lifecycle c) eqn:Lc.
+    + exfalso. apply N. destruct c; try discriminate; left; reflexivity.
+    + pose proof (game_apply en c) as G. rewrite (new_game_other en c Lc) in G. inversion G. reflexivity.
+  - (* LPlayers *)
+    destruct (lifecycle c) eqn:Lc.
+    + exfalso. apply N. destruct c; try discriminate; right; left; reflexivity.
+    + pose proof (game_apply en c) as G. rewrite (new_game_other en c Lc) in G. inversion G. reflexivity.
+Qed.
+
+(* ---- change histories: the subscriber never holds a stale value --------------------------------- *)
+(* a change is honest when every cell it alters keeps its content or is announced on its channel *)
+Definition honest_gen (ann : env -> change -> list loc) (en : env) (c : change) : bool :=
+  forallb (fun l => rd_eqb (sread (apply_change en c) l) (sread en l) || existsb (loc_eqb (chan_of l)) (ann en c))
+          (changed_locs en c).
+Definition honest := honest_gen announced.
+
+Fixpoint honest_run_gen (ann : env -> change -> list loc) (en : env) (cs : list change) : bool :=
   match cs with
   | [] => true
-  | c :: cs' => honest en c && honest_run (apply_change en c) cs'
+  | c :: cs' => honest_gen ann en c && honest_run_gen ann (apply_change en c) cs'
   end.
+Definition honest_run := honest_run_gen announced.
 
-Fixpoint hfinal (k : kind) (d : value) (e : expr) (st : env * subscriber) (cs : list change) : env * subscriber :=
+Fixpoint hfinal_gen (ann : env -> change -> list loc) (k : kind) (d : value) (e : expr) (st : env * subscriber)
+         (cs : list change) : env * subscriber :=
   match cs with
   | [] => st
-  | c :: cs' => hfinal k d e (fst (hstep k d e st c)) cs'
+  | c :: cs' => hfinal_gen ann k d e (fst (hstep_gen ann k d e st c)) cs'
   end.
-
-Definition outcome_of (k : kind) (d : value) (t : tres) : outcome :=
-  match t with
-  | TVal VNone | TEvalErr => convert k d
-  | TVal v => convert k v
-  | TValueErr | TCrash => OAssert
-  | TUnsup => OUnsup
-  end.
-
-Lemma eas_fst k d en e : fst (evaluate_and_subscribe k d en e) = outcome_of k d (fst (tmpl_eval true en e)).
-Proof. unfold evaluate_and_subscribe. destruct (tmpl_eval true en e) as [[v| | | |] s]; try destruct v; reflexivity. Qed.
+Definition hfinal := hfinal_gen announced.
 
 Lemma eas_snd k d en e r s : tmpl_eval true en e = (r, s) -> tres_ok r = true ->
   snd (evaluate_and_subscribe k d en e) = s.
@@ -429,83 +761,414 @@ Proof.
   - right. cbn [last]. subst o. apply outcome_of_not_ok; assumption.
 Qed.
 
-Lemma existsb_loc_in l s : existsb (loc_eqb l) s = false -> ~ In l s.
+Lemma woken_false ann sb a : woken ann sb = false -> In a ann -> ~ In a sb.
 Proof.
-  intros H I. assert (existsb (loc_eqb l) s = true); [|congruence].
-  apply existsb_exists. exists l. split; auto. apply loc_eqb_eq. reflexivity.
+  unfold woken. intros W Ia Is.
+  assert (existsb (fun a => existsb (loc_eqb a) sb) ann = true); [|congruence].
+  apply existsb_exists. exists a. split; auto. apply existsb_loc_in. exact Is.
 Qed.
 
-Lemma fresh_step k d e en sb c : fresh k d e en sb -> honest en c = true ->
-  fresh k d e (fst (fst (hstep k d e (en, sb) c))) (snd (fst (hstep k d e (en, sb) c))).
+Lemma fresh_step ann k d e en sb c : fresh k d e en sb -> honest_gen ann en c = true ->
+  fresh k d e (fst (fst (hstep_gen ann k d e (en, sb) c))) (snd (fst (hstep_gen ann k d e (en, sb) c))).
 Proof.
-  intros F Hc. unfold hstep.
-  destruct (announces en c && existsb (loc_eqb (changed_loc c)) (subs sb)) eqn:Fire; cbn [fst snd].
+  intros F Hc. unfold hstep_gen.
+  destruct (woken (ann en c) (subs sb)) eqn:Fire; cbn [fst snd].
   - apply fresh_subscribe_now.
   - destruct F as [[en0 [r [T [O [L [P A]]]]]] | D]; [|right; assumption].
     left. exists en0, r. split; [exact T|]. split; [exact O|]. split; [exact L|].
-    split; [rewrite P; destruct c; reflexivity|].
-    intros l I. rewrite (A l I).
-    destruct (loc_eqb l (changed_loc c)) eqn:E.
-    + apply loc_eqb_eq in E. subst l.
-      apply andb_false_iff in Fire as [Fa | Fe].
-      * unfold honest in Hc. rewrite Fa in Hc. cbn in Hc. apply rd_eqb_eq in Hc. symmetry. exact Hc.
-      * exfalso. eapply existsb_loc_in; eauto.
-    + symmetry. apply sread_apply_other.
-      intro Q. subst l. rewrite (proj2 (loc_eqb_eq _ _) eq_refl) in E. discriminate.
+    split; [rewrite P; symmetry; apply params_apply|].
+    intros l I. rewrite (A l I). symmetry.
+    destruct (existsb (loc_eqb l) (changed_locs en c)) eqn:E.
+    + apply existsb_loc_in in E.
+      unfold honest_gen in Hc. rewrite forallb_forall in Hc. specialize (Hc l E).
+      apply orb_true_iff in Hc as [Hc | Hc]; [apply rd_eqb_eq; exact Hc|].
+      exfalso. apply existsb_loc_in in Hc. exact (woken_false _ _ _ Fire Hc I).
+    + apply sread_apply_other. intro Q. apply existsb_loc_in in Q. congruence.
 Qed.
 
-Lemma fresh_run k d e : forall cs en sb, fresh k d e en sb -> honest_run en cs = true ->
-  fresh k d e (fst (hfinal k d e (en, sb) cs)) (snd (hfinal k d e (en, sb) cs)).
+Lemma hstep_env ann k d e en sb c : fst (fst (hstep_gen ann k d e (en, sb) c)) = apply_change en c.
+Proof. unfold hstep_gen. destruct (woken _ _); reflexivity. Qed.
+
+Lemma fresh_run ann k d e : forall cs en sb, fresh k d e en sb -> honest_run_gen ann en cs = true ->
+  fresh k d e (fst (hfinal_gen ann k d e (en, sb) cs)) (snd (hfinal_gen ann k d e (en, sb) cs)).
 Proof.
-  induction cs as [|c cs IH]; intros en sb F H; cbn [hfinal honest_run] in *.
+  induction cs as [|c cs IH]; intros en sb F H; cbn [hfinal_gen honest_run_gen] in *.
   - exact F.
   - apply andb_true_iff in H as [Hc Hr].
-    pose proof (fresh_step k d e en sb c F Hc) as F'.
-    destruct (hstep k d e (en, sb) c) as [[en' sb'] fired] eqn:E. cbn [fst snd] in *.
-    assert (en' = apply_change en c) as ->.
-    { unfold hstep in E. destruct (announces en c && _); inversion E; reflexivity. }
+    pose proof (fresh_step ann k d e en sb c F Hc) as F'.
+    pose proof (hstep_env ann k d e en sb c) as Ee.
+    destruct (hstep_gen ann k d e (en, sb) c) as [[en' sb'] fired]. cbn [fst snd] in *. subst en'.
     apply IH; assumption.
 Qed.
 
-Lemma no_stale_value_l : forall k d e en cs, honest_run en cs = true ->
-  let st := hfinal k d e (en, subscribe_now k d en e) cs in
+Lemma no_stale_value_gen : forall ann k d e en cs, supported e = true -> honest_run_gen ann en cs = true ->
+  let st := hfinal_gen ann k d e (en, subscribe_now k d en e) cs in
   (forall v, last (snd st) <> OVal v)                                             (* the loop died with an exception *)
   \/ fst (evaluate_and_subscribe k d (fst st) e) = last (snd st)                 (* delivered value is current *)
   \/ (forall v, fst (evaluate_and_subscribe k d (fst st) e) <> OVal v).          (* evaluating now raises *)
 Proof.
-  intros k d e en cs H. cbn zeta.
-  pose proof (fresh_run k d e cs en _ (fresh_subscribe_now k d e en) H) as F.
-  destruct (hfinal k d e (en, subscribe_now k d en e) cs) as [en' sb']. cbn [fst snd] in *.
+  intros ann k d e en cs S H. cbn zeta.
+  pose proof (fresh_run ann k d e cs en _ (fresh_subscribe_now k d e en) H) as F.
+  destruct (hfinal_gen ann k d e (en, subscribe_now k d en e) cs) as [en' sb']. cbn [fst snd] in *.
   destruct F as [[en0 [r [T [O [L A]]]]] | D]; [|left; assumption].
   right. rewrite eas_fst.
-  destruct (outcome_determined_by_subscriptions_l e en0 en' r (subs sb') T O A) as [E | E].
+  destruct (outcome_determined_by_subscriptions_l e en0 en' r (subs sb') S T O A) as [E | E].
   - left. rewrite E. symmetry. exact L.
   - right. apply outcome_of_not_ok. exact E.
 Qed.
 
+Lemma no_stale_value_l : forall k d e en cs, supported e = true -> honest_run en cs = true ->
+  let st := hfinal k d e (en, subscribe_now k d en e) cs in
+  (forall v, last (snd st) <> OVal v)
+  \/ fst (evaluate_and_subscribe k d (fst st) e) = last (snd st)
+  \/ (forall v, fst (evaluate_and_subscribe k d (fst st) e) <> OVal v).
+Proof. intros. apply (no_stale_value_gen announced); assumption. Qed.
+
+(* ---- which changes can be unannounced ------------------------------------------------------------
+   Game-lifecycle changes (with the fix) and removals are always honest; only a value written to a
+   variable / attribute can go unannounced. *)
+Lemma value_eqb_refl_int z : value_eqb (VInt z) (VInt z) = true.
+Proof. cbn. apply Z.eqb_refl. Qed.
+
+Lemma lifecycle_honest : forall en c, lifecycle c = true -> honest en c = true.
+Proof.
+  intros en c Lc. unfold honest, honest_gen.
+  destruct c; try discriminate; clear Lc.
+  - (* CStartGame *)
+    unfold announced, announced_gen, changed_locs, writes.
+    destruct (game en) as [[c n]|] eqn:G.
+    + cbn [map forallb]. pose proof (game_apply en CStartGame) as Ga. cbn [new_game] in Ga. rewrite G in Ga.
+      inversion Ga as [[Hg Hgm]]. cbn [sread]. rewrite Hgm, Hg, G. cbn. rewrite !Z.eqb_refl. reflexivity.
+    + cbn [map fst forallb chan_of existsb]. rewrite !loc_eqb_refl. cbn. rewrite !orb_true_r. reflexivity.
+  - (* CAddPlayer *)
+    unfold announced, announced_gen, changed_locs, writes.
+    destruct (game en) as [[c n]|] eqn:G.
+    + cbn [map fst forallb chan_of existsb]. rewrite !loc_eqb_refl.
+      pose proof (game_apply en CAddPlayer) as Ga. cbn [new_game] in Ga. rewrite G in Ga.
+      inversion Ga as [[Hg Hgm]]. cbn [sread]. rewrite Hgm, Hg, G. cbn. rewrite !Z.eqb_refl. cbn.
+      rewrite !orb_true_r. reflexivity.
+    + cbn [map forallb]. pose proof (game_apply en CAddPlayer) as Ga. cbn [new_game] in Ga. rewrite G in Ga.
+      inversion Ga as [[Hg Hgm]]. cbn [sread]. rewrite Hgm, G. reflexivity.
+  - (* CNextTurn *)
+    unfold announced, announced_gen, changed_locs, writes.
+    destruct (game en) as [[c n]|] eqn:G.
+    + cbn [map fst forallb chan_of existsb]. rewrite !loc_eqb_refl.
+      pose proof (game_apply en CNextTurn) as Ga. cbn [new_game] in Ga. rewrite G in Ga.
+      inversion Ga as [[Hg Hgm]]. cbn [sread]. rewrite Hgm, Hg, G. cbn. rewrite !Z.eqb_refl. cbn.
+      rewrite !orb_true_r. reflexivity.
+    + cbn [map forallb]. pose proof (game_apply en CNextTurn) as Ga. cbn [new_game] in Ga. rewrite G in Ga.
+      inversion Ga as [[Hg Hgm]]. cbn [sread]. rewrite Hgm, G. reflexivity.
+  - (* CEndGame *)
+    unfold announced, announced_gen, changed_locs, writes.
+    destruct (game en) as [[c n]|] eqn:G.
+    + cbn [map fst forallb chan_of existsb]. rewrite !loc_eqb_refl. cbn. rewrite !orb_true_r. reflexivity.
+    + cbn [map forallb]. pose proof (game_apply en (CEndGame slow)) as Ga. cbn [new_game] in Ga. rewrite G in Ga.
+      inversion Ga as [[Hg Hgm]]. cbn [sread]. rewrite Hgm, G. reflexivity.
+Qed.
+
+Lemma lookup_remove_same l s : lookup_loc l (remove_loc l s) = None.
+Proof.
+  induction s as [|[k v] s IH]; cbn; [reflexivity|].
+  destruct (loc_eqb l k) eqn:E; [exact IH|]. cbn. rewrite E. exact IH.
+Qed.
+
+Lemma remove_honest : forall en n, honest en (CRemoveMachine n) = true.
+Proof.
+  intros en n. unfold honest, honest_gen. cbn [changed_locs forallb chan_of announced announced_gen].
+  destruct (lookup_loc (LMachine n) (store en)) eqn:L.
+  - cbn [existsb]. rewrite loc_eqb_refl. rewrite !orb_true_r. reflexivity.
+  - cbn [sread]. rewrite store_apply. rewrite lookup_remove_same, L. reflexivity.
+Qed.
+
+(* ---- int / str valued stores: every change is announced or changes nothing ------------------------ *)
+Definition plain_val (v : value) : bool := match v with VInt _ | VStr _ => true | _ => false end.
+Definition plain_rd (r : rd) : bool := match r with RVal v => plain_val v | _ => true end.
+Definition plain_store (en : env) : bool := forallb (fun p => plain_rd (snd p)) (store en).
+Definition plain_change (c : change) : bool :=
+  match c with
+  | CSetMachine _ v | CSetSetting _ v | CSetDevice _ _ _ v | CSetPlayerVar _ _ v => plain_val v
+  | _ => true
+  end.
+
+Lemma plain_lookup en l r : plain_store en = true -> lookup_loc l (store en) = Some r -> plain_rd r = true.
+Proof.
+  unfold plain_store. induction (store en) as [|[k v] s IH]; cbn; intros P L; [discriminate|].
+  apply andb_true_iff in P as [Pv Ps].
+  destruct (loc_eqb l k); [inversion L; subst; exact Pv | apply IH; assumption].
+Qed.
+
+Lemma change_truthy_plain p v : plain_val p = true -> plain_val v = true -> change_truthy p v = false -> v = p.
+Proof.
+  destruct p, v; cbn; intros Pp Pv H; try discriminate.
+  - apply negb_false_iff in H. apply Z.eqb_eq in H. f_equal. lia.
+  - apply negb_false_iff in H. apply zs_eqb_spec in H. congruence.
+Qed.
+
+Lemma py_eqb_plain p v : plain_val p = true -> plain_val v = true -> py_eqb p v = true -> v = p.
+Proof.
+  destruct p, v; cbn; intros Pp Pv H; try discriminate.
+  - unfold Qeq_bool in H. cbn in H. apply Zeq_is_eq_bool in H. f_equal. lia.
+  - apply zs_eqb_spec in H. congruence.
+Qed.
+
+Lemma value_eqb_refl_plain v : plain_val v = true -> value_eqb v v = true.
+Proof. destruct v; cbn; intro P; try discriminate; [apply Z.eqb_refl | apply zs_eqb_spec; reflexivity]. Qed.
+
+Lemma lookup_apply_head en c l r rest : lifecycle c = false -> (forall n, c <> CRemoveMachine n) ->
+  writes en c = (l, r) :: rest -> lookup_loc l (store (apply_change en c)) = Some r.
+Proof.
+  intros Lc Nr W. rewrite store_apply.
+  destruct c; try discriminate; try (exfalso; eapply Nr; reflexivity); rewrite W; cbn; rewrite loc_eqb_refl; reflexivity.
+Qed.
+
+(* a single written cell: honest as soon as "not announced" implies "same content" *)
+Lemma honest_single en c l v : lifecycle c = false -> (forall n, c <> CRemoveMachine n) ->
+  writes en c = [(l, RVal v)] -> changed_locs en c = [l] ->
+  (match l with LTurn | LPlayers | LPlayerEv _ => False | _ => True end) ->
+  (In (chan_of l) (announced en c) \/ lookup_loc l (store en) = Some (RVal v)) ->
+  honest en c = true.
+Proof.
+  intros Lc Nr W C Hl H. unfold honest, honest_gen. rewrite C. cbn [forallb]. rewrite andb_true_r.
+  destruct H as [H | H].
+  - apply orb_true_iff. right. apply existsb_loc_in. exact H.
+  - apply orb_true_iff. left.
+    pose proof (lookup_apply_head en c l (RVal v) [] Lc Nr W) as L'.
+    destruct l; try contradiction; cbn [sread]; rewrite L', H; cbn.
+    all: try (clear; induction v using value_ind2; cbn; try reflexivity;
+              [apply Bool.eqb_reflx | apply Z.eqb_refl | apply zs_eqb_spec; reflexivity
+              | rewrite Z.eqb_refl, Pos.eqb_refl; reflexivity
+              | induction H as [|x l Hx Hl IH]; [reflexivity | rewrite Hx, IH; reflexivity]]).
+Qed.
+
+Lemma plain_honest : forall en c, plain_store en = true -> plain_change c = true -> honest en c = true.
+Proof.
+  intros en c Ps Pc.
+  destruct (lifecycle c) eqn:Lc; [apply lifecycle_honest; exact Lc|].
+  destruct c; try discriminate; cbn [plain_change] in Pc.
+  - (* CSetMachine *)
+    apply (honest_single en _ (LMachine n) v); [reflexivity | discriminate | reflexivity | reflexivity | exact I |].
+    cbn [chan_of announced announced_gen].
+    destruct (lookup_loc (LMachine n) (store en)) as [[p| |]|] eqn:L; try (left; left; reflexivity).
+    destruct (change_truthy p v) eqn:Ct; [left; left; reflexivity|].
+    right. f_equal. f_equal. symmetry. apply change_truthy_plain; auto.
+    apply (plain_lookup en _ _ Ps L).
+  - (* CRemoveMachine *) apply remove_honest.
+  - (* CSetSetting *)
+    apply (honest_single en _ (LSetting n) v); [reflexivity | discriminate | reflexivity | reflexivity | exact I |].
+    cbn [chan_of announced announced_gen].
+    destruct (lookup_loc (LSetting n) (store en)) as [[p| |]|] eqn:L; try (left; left; reflexivity).
+    destruct (change_truthy p v) eqn:Ct; [left; left; reflexivity|].
+    right. f_equal. f_equal. symmetry. apply change_truthy_plain; auto.
+    apply (plain_lookup en _ _ Ps L).
+  - (* CSetDevice *)
+    apply (honest_single en _ (LDevice c d a) v); [reflexivity | discriminate | reflexivity | reflexivity | exact I |].
+    cbn [chan_of announced announced_gen sread].
+    destruct (lookup_loc (LDevice c d a) (store en)) as [[p| |]|] eqn:L; cbn [rd_py_eqb]; try (left; left; reflexivity).
+    destruct (py_eqb p v) eqn:Pe; [|left; left; reflexivity].
+    right. f_equal. f_equal. symmetry. apply py_eqb_plain; auto.
+    apply (plain_lookup en _ _ Ps L).
+  - (* CSetPlayerVar *)
+    destruct (game en) as [[cu n]|] eqn:G.
+    + destruct ((0 <=? i) && (i <? n)) eqn:V.
+      * eapply (honest_single en _ (LPlayerI (games en) i x) v).
+        -- reflexivity.
+        -- discriminate.
+        -- cbn [writes]. rewrite G, V. reflexivity.
+        -- cbn [changed_locs writes]. rewrite G, V. reflexivity.
+        -- exact I.
+        -- cbn [chan_of announced announced_gen]. rewrite G, V.
+           assert (Ev : event_type v = true) by (destruct v; try discriminate; reflexivity). rewrite Ev, andb_true_r.
+           destruct (lookup_loc (LPlayerI (games en) i x) (store en)) as [[p| |]|] eqn:L; try (left; left; reflexivity).
+           destruct (change_truthy p v) eqn:Ct; [left; left; reflexivity|].
+           right. f_equal. f_equal. symmetry. apply change_truthy_plain; auto.
+           apply (plain_lookup en _ _ Ps L).
+      * unfold honest, honest_gen. cbn [changed_locs writes]. rewrite G, V. reflexivity.
+    + unfold honest, honest_gen. cbn [changed_locs writes]. rewrite G. reflexivity.
+Qed.
+
+Lemma plain_remove l s : forallb (fun p : loc * rd => plain_rd (snd p)) s = true ->
+  forallb (fun p : loc * rd => plain_rd (snd p)) (remove_loc l s) = true.
+Proof.
+  induction s as [|[k v] s IH]; cbn; intro P; [reflexivity|].
+  apply andb_true_iff in P as [Pv Ps]. destruct (loc_eqb l k); [apply IH; exact Ps|].
+  cbn. rewrite Pv. apply IH. exact Ps.
+Qed.
+
+Lemma plain_preserved : forall en c, plain_store en = true -> plain_change c = true ->
+  plain_store (apply_change en c) = true.
+Proof.
+  intros en c Ps Pc. unfold plain_store in *. rewrite store_apply.
+  destruct c; cbn [plain_change] in Pc; try (apply plain_remove; exact Ps);
+    rewrite forallb_app; apply andb_true_iff; split; try exact Ps; cbn [writes].
+  - cbn. rewrite Pc. reflexivity.
+  - cbn. rewrite Pc. reflexivity.
+  - cbn. rewrite Pc. reflexivity.
+  - destruct (game en) as [[cu n]|]; [|reflexivity]. destruct ((0 <=? i) && (i <? n)); [|reflexivity].
+    cbn. rewrite Pc. reflexivity.
+  - destruct (game en); reflexivity.
+  - destruct (game en) as [[cu n]|]; reflexivity.
+  - destruct (game en) as [[cu n]|]; reflexivity.
+  - reflexivity.
+Qed.
+
+Lemma plain_run_honest : forall cs en, plain_store en = true -> forallb plain_change cs = true ->
+  honest_run en cs = true.
+Proof.
+  induction cs as [|c cs IH]; intros en Ps Pc; [reflexivity|].
+  cbn [forallb] in Pc. apply andb_true_iff in Pc as [Pc Pcs].
+  unfold honest_run. cbn [honest_run_gen]. apply andb_true_iff. split.
+  - apply plain_honest; assumption.
+  - apply IH; [apply plain_preserved; assumption | assumption].
+Qed.
+
+Lemma no_stale_value_plain_l : forall k d e en cs, supported e = true ->
+  plain_store en = true -> forallb plain_change cs = true ->
+  let st := hfinal k d e (en, subscribe_now k d en e) cs in
+  (forall v, last (snd st) <> OVal v)
+  \/ fst (evaluate_and_subscribe k d (fst st) e) = last (snd st)
+  \/ (forall v, fst (evaluate_and_subscribe k d (fst st) e) <> OVal v).
+Proof. intros. apply no_stale_value_l; [assumption | apply plain_run_honest; assumption]. Qed.
+
+(* ---- every subscription is a channel (never a mode / game attribute or a bare player cell) -------- *)
+Definition is_channel (l : loc) : bool :=
+  match l with LMode _ _ | LGame _ | LPlayerI _ _ _ => false | _ => true end.
+
+Lemma read_walk_channels sub en r t s : supported_read r = true -> read_walk sub en r = (t, s) ->
+  forallb is_channel s = true.
+Proof.
+  intros S H. destruct r as [l | x | i x].
+  - destruct l; try discriminate; cbn in H;
+      repeat match type of H with
+             | context [match ?X with _ => _ end] => destruct X
+             | context [if ?X then _ else _] => destruct X
+             end; inversion H; reflexivity.
+  - unfold read_walk in H. destruct (rread en _), sub; inversion H; reflexivity.
+  - unfold read_walk in H. destruct (rread en _), sub; inversion H; reflexivity.
+Qed.
+
+Lemma tbind_channels r k : forallb is_channel (snd r) = true ->
+  (forall v s, forallb is_channel s = true -> forallb is_channel (snd (k v s)) = true) ->
+  forallb is_channel (snd (tbind r k)) = true.
+Proof. destruct r as [[] s]; cbn; auto. Qed.
+
+Lemma of_res_channels r s : forallb is_channel s = true -> forallb is_channel (snd (of_res r s)) = true.
+Proof. destruct r; cbn; auto. Qed.
+
+Lemma subs_are_channels_l : forall sub en e, supported e = true ->
+  forallb is_channel (snd (tmpl_eval sub en e)) = true.
+Proof.
+  intros sub en e. induction e; intro S; cbn [supported] in S; cbn [tmpl_eval]; autorewrite with disp;
+    try reflexivity.
+  - destruct (assoc_z x (params en)); reflexivity.
+  - rewrite read_match_eq. destruct (read_walk sub en r) as [t s] eqn:E. cbn [snd].
+    eapply read_walk_channels; eauto.
+  - apply andb_true_iff in S as [S Sb]. apply andb_true_iff in S as [So Sa].
+    apply tbind_channels; [auto|]. intros va sa Ha. apply tbind_channels; [auto|]. intros vb sb Hb.
+    destruct (operators o); [|reflexivity]. apply of_res_channels. rewrite forallb_app, Ha, Hb. reflexivity.
+  - apply andb_true_iff in S as [So Sa].
+    apply tbind_channels; [auto|]. intros va sa Ha.
+    destruct (operators o); [|reflexivity]. apply of_res_channels. exact Ha.
+  - apply andb_true_iff in S as [S Sb]. apply andb_true_iff in S as [So Sa].
+    apply tbind_channels; [auto|]. intros va sa Ha. apply tbind_channels; [auto|]. intros vb sb Hb.
+    destruct (comparisons o); [|reflexivity]. apply of_res_channels. rewrite forallb_app, Ha, Hb. reflexivity.
+  - apply andb_true_iff in S as [Sa Sb].
+    apply tbind_channels; [auto|]. intros va sa Ha. apply tbind_channels; [auto|]. intros vb sb Hb.
+    destruct (bool_operators o); [|reflexivity]. cbn. rewrite forallb_app, Ha, Hb. reflexivity.
+  - apply andb_true_iff in S as [S Sb]. apply andb_true_iff in S as [Sc Sa].
+    apply tbind_channels; [auto|]. intros vc sc Hc.
+    assert (B : forallb is_channel (snd (if truthy vc then tmpl_eval sub en e2 else tmpl_eval sub en e3)) = true)
+      by (destruct (truthy vc); auto).
+    destruct (if truthy vc then tmpl_eval sub en e2 else tmpl_eval sub en e3) as [[] sb]; cbn in *;
+      try exact B; rewrite forallb_app, Hc, B; reflexivity.
+  - apply andb_true_iff in S as [S Sb]. apply andb_true_iff in S as [St Sa].
+    apply tbind_channels; [auto|]. intros va sa Ha. apply tbind_channels; [auto|]. intros vb sb Hb.
+    destruct vb; try reflexivity. cbn. rewrite forallb_app, Ha, Hb. reflexivity.
+  - apply andb_true_iff in S as [Sa Sb].
+    apply tbind_channels; [auto|]. intros va sa Ha. apply tbind_channels; [auto|]. intros vb sb Hb.
+    apply of_res_channels. rewrite forallb_app, Ha, Hb. reflexivity.
+Qed.
+
+(* a subscribed evaluation that returns a value has read only cells that have a channel *)
+Lemma subscribed_value_reads_subscribable_l : forall en e v ss, supported e = true ->
+  tmpl_eval true en e = (TVal v, ss) -> forall l, In l (reads en e) -> is_channel (chan_of l) = true.
+Proof.
+  intros en e v ss S H l I.
+  pose proof (subscriptions_cover_reads_l en e v ss S H l I) as C.
+  pose proof (subs_are_channels_l true en e S) as A. rewrite H in A. cbn [snd] in A.
+  rewrite forallb_forall in A. apply A. exact C.
+Qed.
+
+(* ---- witnesses ----------------------------------------------------------------------------------- *)
 (* an unannounced change makes the subscriber stale: setting a player variable to None posts no event *)
-Definition stale_witness_env := mkEnv [] [] true.
-Definition stale_witness_changes := [CSetPlayer [112] (VInt 5); CSetPlayer [112] VNone].
+Definition stale_witness_env := mkEnv [] [] 1 (Some (0, 1)).
+Definition stale_witness_changes := [CSetPlayerVar 0 [112] (VInt 5); CSetPlayerVar 0 [112] VNone].
 Lemma stale_after_unannounced_change_refuted_l :
-  let e := ERead (LPlayer [112]) in
+  let e := ERead (RCur [112]) in
   let st := hfinal KRaw (VInt 77) e (stale_witness_env, subscribe_now KRaw (VInt 77) stale_witness_env e) stale_witness_changes in
-  honest_run stale_witness_env stale_witness_changes = false /\
+  supported e = true /\ honest_run stale_witness_env stale_witness_changes = false /\
   last (snd st) = OVal (VInt 5) /\ fst (evaluate_and_subscribe KRaw (VInt 77) (fst st) e) = OVal (VInt 77).
 Proof. vm_compute. repeat split. Qed.
 
+Lemma stale_after_unannounced_change_refuted_ex :
+  exists k d e en cs,
+    let st := hfinal k d e (en, subscribe_now k d en e) cs in
+    supported e = true /\ honest_run en cs = false /\
+    last (snd st) = OVal (VInt 5) /\ fst (evaluate_and_subscribe k d (fst st) e) = OVal (VInt 77).
+Proof.
+  exists KRaw, (VInt 77), (ERead (RCur [112])), stale_witness_env, stale_witness_changes.
+  exact stale_after_unannounced_change_refuted_l.
+Qed.
+
+(* the code WITHOUT fixes/C16-player-placeholder-game-end.patch: after the game has ended a template on
+   current_player.score keeps the last score (70) although it now evaluates to its default (77); with the
+   fix the same history delivers 77 *)
+Definition game_end_changes (slow : bool) := [CSetPlayerVar 0 s_score (VInt 70); CEndGame slow].
+Lemma stale_after_game_end_unfixed_refuted_ex :
+  exists k d e en cs,
+    let st := hfinal_gen announced_unfixed k d e (en, subscribe_now k d en e) cs in
+    supported e = true /\ forallb plain_change cs = true /\ plain_store en = true /\
+    last (snd st) = OVal (VInt 70) /\ fst (evaluate_and_subscribe k d (fst st) e) = OVal (VInt 77) /\
+    last (snd (hfinal k d e (en, subscribe_now k d en e) cs)) = OVal (VInt 77).
+Proof.
+  exists KRaw, (VInt 77), (ERead (RCur s_score)), stale_witness_env, (game_end_changes false).
+  vm_compute. repeat split.
+Qed.
+(* ... and players[0].score when a queue handler delays mode_game_stopping *)
+Lemma stale_players_after_slow_game_end_unfixed :
+  let e := ERead (RPlayerN 0 s_score) in
+  let st := hfinal_gen announced_unfixed KRaw (VInt 77) e
+              (stale_witness_env, subscribe_now KRaw (VInt 77) stale_witness_env e) (game_end_changes true) in
+  last (snd st) = OVal (VInt 70) /\ fst (evaluate_and_subscribe KRaw (VInt 77) (fst st) e) = OVal (VInt 77).
+Proof. vm_compute. repeat split. Qed.
+
 (* examples: the hypotheses are satisfiable on non-trivial inputs *)
-Definition ex_env := mkEnv [([112], VInt 3)] [(LMachine [97], RVal (VInt 4)); (LSetting [115], RVal (VStr [108;111]))] false.
+Definition ex_env := mkEnv [([112], VInt 3)] [(LMachine [97], RVal (VInt 4)); (LSetting [115], RVal (VStr [108;111]))] 0 None.
 (* (machine.a + p) * 2 if settings.s == "lo" else -machine.b *)
 Definition ex_expr :=
-  EIf (ECmp CEq (ERead (LSetting [115])) (EStr [108;111]))
-      (EBin KMult (EBin KAdd (ERead (LMachine [97])) (EName [112])) (ENum 2))
-      (EUn KUSub (ERead (LMachine [98]))).
-Lemma ex_supported : supported ex_expr = true. Proof. reflexivity. Qed.
+  EIf (ECmp CEq (ERead (RCell (LSetting [115]))) (EStr [108;111]))
+      (EBin KMult (EBin KAdd (ERead (RCell (LMachine [97]))) (EName [112])) (ENum 2))
+      (EUn KUSub (ERead (RCell (LMachine [98])))).
+Lemma ex_supported : supported ex_expr = true /\ subscribable ex_expr = true. Proof. split; reflexivity. Qed.
 Lemma ex_value : py_eval ex_env ex_expr = PVal (VInt 14). Proof. vm_compute. reflexivity. Qed.
 Lemma ex_tmpl : tmpl_eval true ex_env ex_expr = (TVal (VInt 14), [LSetting [115]; LMachine [97]]).
 Proof. vm_compute. reflexivity. Qed.
 (* -machine.b with b unset: TypeError in Python *)
-Lemma ex_type_error : py_eval ex_env (EUn KUSub (ERead (LMachine [98]))) = PTypeErr. Proof. vm_compute. reflexivity. Qed.
+Lemma ex_type_error : py_eval ex_env (EUn KUSub (ERead (RCell (LMachine [98])))) = PTypeErr. Proof. vm_compute. reflexivity. Qed.
+(* floats, tuples, subscripts:  0.1 + 0.2 == 0.30000000000000004  and  (1, "a", 5 / 2)[-1] == 2.5 *)
+Lemma ex_float : py_eval ex_env (EBin KAdd (EFlt 3602879701896397 36028797018963968) (EFlt 3602879701896397 18014398509481984))
+                 = PVal (VFloat 1351079888211149 4503599627370496).
+Proof. vm_compute. reflexivity. Qed.
+Definition ex_tuple_expr :=
+  EIndex (ETupCons (ENum 1) (ETupCons (EStr [97]) (ETupCons (EBin KDiv (ENum 5) (ENum 2)) ETupNil))) (EUn KUSub (ENum 1)).
+Lemma ex_tuple : supported ex_tuple_expr = true /\ py_eval ex_env ex_tuple_expr = PVal (VFloat 5 2) /\
+                 tmpl_eval true ex_env ex_tuple_expr = (TVal (VFloat 5 2), []).
+Proof. vm_compute. repeat split. Qed.
+Lemma ex_missing_parameter :
+  supported (EName [122]) = true /\ subscribable (EName [122]) = true /\ py_eval ex_env (EName [122]) = PNameErr /\
+  fst (evaluate_and_subscribe KRaw (VInt 77) ex_env (EName [122])) = OAssert /\
+  evaluate KRaw (VInt 77) ex_env (EName [122]) = OVal (VInt 77).
+Proof. vm_compute. repeat split. Qed.
+
 Definition ex_changes := [CSetMachine [97] (VInt 5); CSetSetting [115] (VStr [104;105]); CSetMachine [98] (VInt 9);
                           CRemoveMachine [98]; CSetMachine [97] (VInt 5)].
 Lemma ex_honest : honest_run ex_env ex_changes = true. Proof. vm_compute. reflexivity. Qed.
@@ -513,12 +1176,27 @@ Lemma ex_history : hrun KRaw (VInt 77) ex_expr (ex_env, subscribe_now KRaw (VInt
   = [(true, OVal (VInt 16)); (true, OVal (VInt 77)); (true, OVal (VInt (-9))); (true, OVal (VInt 77)); (false, OVal (VInt 77))].
 Proof. vm_compute. reflexivity. Qed.
 
-Lemma stale_after_unannounced_change_refuted_ex :
-  exists k d e en cs,
-    let st := hfinal k d e (en, subscribe_now k d en e) cs in
-    honest_run en cs = false /\
-    last (snd st) = OVal (VInt 5) /\ fst (evaluate_and_subscribe k d (fst st) e) = OVal (VInt 77).
+(* a game: current_player.score + (1000 if players[1].score > 0 else machine.a) over start / add player /
+   next turn / end of game *)
+Definition game_env := mkEnv [] [(LMachine [97], RVal (VInt 4))] 0 None.
+Definition game_expr :=
+  EBin KAdd (ERead (RCur s_score))
+       (EIf (ECmp CGt (ERead (RPlayerN 1 s_score)) (ENum 0)) (ENum 1000) (ERead (RCell (LMachine [97])))).
+Definition game_changes := [CStartGame; CSetPlayerVar 0 s_score (VInt 100); CAddPlayer; CSetPlayerVar 1 s_score (VInt 5);
+                            CNextTurn; CSetMachine [97] (VInt 4); CEndGame true].
+Lemma ex_game : supported game_expr = true /\ plain_store game_env = true /\ forallb plain_change game_changes = true /\
+  hrun KRaw (VInt 77) game_expr (game_env, subscribe_now KRaw (VInt 77) game_env game_expr) game_changes
+  = [(true, OVal (VInt 77)); (true, OVal (VInt 77)); (true, OVal (VInt 104)); (true, OVal (VInt 1100));
+     (true, OVal (VInt 1005)); (false, OVal (VInt 1005)); (true, OVal (VInt 77))].
+Proof. vm_compute. repeat split. Qed.
+
+Lemma lifecycle_and_removal_honest :
+  forall en c, (lifecycle c = true \/ exists n, c = CRemoveMachine n) -> honest en c = true.
 Proof.
-  exists KRaw, (VInt 77), (ERead (LPlayer [112])), stale_witness_env, stale_witness_changes.
-  exact stale_after_unannounced_change_refuted_l.
+  intros en c [H | [n ->]]; [exact (lifecycle_honest en c H) | exact (remove_honest en n)].
 Qed.
+
+Lemma missing_parameter_subscribed_refuted_ex :
+  exists k d en e, supported e = true /\ subscribable e = true /\ py_eval en e = PNameErr /\
+    fst (evaluate_and_subscribe k d en e) = OAssert /\ evaluate k d en e = OVal d.
+Proof. exists KRaw, (VInt 77), ex_env, (EName [122]). exact ex_missing_parameter. Qed.
